@@ -858,12 +858,14 @@ def create_logger(id_, parameters, arg):
                     'distributions': ['coalescent', 'gmrf'],
                 }
             )
+            # log population sizes only exist in piecewise coalescent models
+            parameters2.append('coalescent.theta.log')
 
     return {
         "id": id_,
         "type": "Logger",
         "file_name": file_name,
-        "parameters": models + parameters2 + ['coalescent.theta.log'],
+        "parameters": models + parameters2,
         "delimiter": "\t",
     }
 
